@@ -479,6 +479,11 @@ func genRaw(r *rng.R) *rawWS {
 				t.Outs = append(t.Outs, o)
 			}
 		}
+		if r.Chance(1, 16) {
+			// an escaping input behind an in-package input that names "the same" file once the
+			// leading .. is clamped away: every entry counts, not the first spelling of a name
+			t.Inputs = append(t.Inputs, rng.Pick(r, [][]string{{"x.txt", "../x.txt"}, {"*.txt", "../x.txt"}, {"./x.txt", "sub/../../x.txt"}, {"x.txt", "/x.txt"}, {"../x.txt", "x.txt"}, {"x.txt", "./x.txt"}})...)
+		}
 		if r.Chance(1, 8) {
 			t.Inputs = append(t.Inputs, rng.Pick(r, []string{"../x.txt", "a/../../x.txt", "ok.txt", "a/../ok.txt", "./ok.txt", "/abs.txt", "..",
 				// the same as patterns: a glob that reaches out of the package escapes it just as well
